@@ -4,6 +4,8 @@
    calendar expression), both schedulers, both balance settings, every project bound and clock. *)
 From PJ Require Import Base.Prelude Sched.Model Sched.Machine Sched.Instances Sched.C03Proofs
      Sched.Check Sched.Oracles Sched.OracleProofs.
+From PJ Require Import Sched.WfIn Sched.C03Report Sched.C03ReportCheck Sched.C03ReportProofs.
+From PJ Require gen.Consts.
 
 (* every usage row of a forward schedule: positive amount, booked on its task's resource, on a day
    with calendar capacity; the day's bookings (all tasks when balancing, the task's own otherwise)
@@ -63,6 +65,119 @@ Proof.
   - vm_compute. split; reflexivity.
 Qed.
 
+(* ---------- the usage report and the resources of the result (last sentence of the property) ---------- *)
+
+(* per-day totals: reserved(resource, day) - a left-to-right sum from 0 over the matching rows - is the
+   [obooked] of the report's rows, for the model's schedule the ledger's [booked]; totals add up over
+   concatenated reports *)
+Theorem C03_report_totals : forall rows r d,
+  report_reserved rows r d = obooked rows r d
+  /\ (forall l, rows = map row_obs (rev l) -> report_reserved rows r d = booked l r d)
+  /\ (forall a b, rows = a ++ b -> report_reserved rows r d = report_reserved a r d + report_reserved b r d).
+Proof. exact report_totals_all. Qed.
+
+(* filtered views: rows(filter) keeps exactly the accepted rows, in the report's order; rows(None) is the
+   report; the rows of one task are the oracle's [rows_of] *)
+Theorem C03_report_filter : forall rows f,
+  (forall x, In x (report_rows rows f) <-> In x rows /\ f x = true)
+  /\ (forall a b, report_rows (a ++ b) f = report_rows a f ++ report_rows b f)
+  /\ (forall x, report_rows [x] f = if f x then [x] else [])
+  /\ report_all rows = rows
+  /\ report_rows rows (fun _ => false) = [].
+Proof. exact report_filter. Qed.
+
+Theorem C03_report_task_rows : forall o t, task_rows (o_rows o) t = rows_of o t.
+Proof. exact task_rows_rows_of. Qed.
+
+(* every resource named by a member task (summaries and milestones included) and every supplied resource is in
+   the table, nothing else is, no name twice, the supplied ones first *)
+Theorem C03_resources_present : forall supplied w,
+  (forall r, In r (resource_table supplied w)
+             <-> In r supplied \/ exists t, In t (members w) /\ k_res (gett w t) = r)
+  /\ NoDup (resource_table supplied w)
+  /\ exists rest, resource_table supplied w = supplied_keys supplied ++ rest.
+Proof. exact resources_present. Qed.
+
+(* the table of an actual run registers the tasks in the order the pass calculates them: same names *)
+Theorem C03_run_table_forward : forall cfg supplied w st, WFin w -> forward cfg w = Ok st ->
+  forall r, In r (run_table supplied w st) <-> In r (resource_table supplied w).
+Proof. exact run_table_forward. Qed.
+
+Theorem C03_run_table_backward : forall cfg supplied w st, WFin w -> backward cfg w = Ok st ->
+  forall r, In r (run_table supplied w st) <-> In r (resource_table supplied w).
+Proof. exact run_table_backward. Qed.
+
+(* a name that was not supplied answers with the default calendar: 8 units Monday..Friday, 0 on Saturday and
+   Sunday - built from the constants read from calendar.DEFAULT_CALENDAR on this run *)
+Theorem C03_default_resource : forall sup_cap supplied k r d,
+  (In r supplied -> table_cap sup_cap supplied k r d = sup_cap r d)
+  /\ (~ In r supplied ->
+      table_cap sup_cap supplied k r d = default_cal k d
+      /\ default_cal k d = weekly_cap gen.Consts.default_weekdays (gen.Consts.default_units * k) d
+      /\ (weekday_of_day d < 5 -> default_cal k d = 8 * k)
+      /\ (5 <= weekday_of_day d -> default_cal k d = 0)).
+Proof. exact default_resource. Qed.
+
+Theorem C03_default_consts :
+  model_weekdays = gen.Consts.default_weekdays /\ model_units = gen.Consts.default_units.
+Proof. exact default_consts. Qed.
+
+(* the schedules of the model, resources that were not supplied being default ones: totals, filtered views,
+   resources present; rows of a default resource lie on Monday..Friday and sum to at most 8 units a day *)
+Theorem C03_forward_report : forall cfg supplied k w st,
+  cap_nonneg cfg -> 0 <= k -> WFin w ->
+  forward (with_defaults cfg supplied k) w = Ok st -> report_ok cfg supplied k w st.
+Proof. exact forward_report. Qed.
+
+Theorem C03_backward_report : forall cfg supplied k w st,
+  cap_nonneg cfg -> 0 <= k -> WFin w ->
+  backward (with_defaults cfg supplied k) w = Ok st -> report_ok cfg supplied k w st.
+Proof. exact backward_report. Qed.
+
+(* the second checker pass over the implementation's observations: code 0 means the three clauses, and a
+   tabulation accepted as "default" is the default calendar on every day *)
+Theorem C03_report_checker_meaning : forall c, check_report c = 0%nat -> report_case_ok c.
+Proof. exact check_report_sound. Qed.
+
+Theorem C03_report_checker_complete : forall c,
+  (forall r d v, In (r, d, v) (p_reserved c) -> Z.abs (obooked (p_rows c) r d - v) <= p_eps c) ->
+  (forall r, In r (p_resources c)
+             <-> nth r (p_supplied c) false = true
+                 \/ exists t, In t (members (p_w c)) /\ k_res (gett (p_w c) t) = r) ->
+  check_report c = 0%nat \/ check_report c = 4%nat.
+Proof. exact check_report_complete. Qed.
+
+Theorem C03_default_tabulation : forall rs k r,
+  tab_is_default rs k r = true -> forall d, cap_of rs r d = default_cal k d.
+Proof. exact tab_is_default_sound. Qed.
+
+(* non-vacuity: a summary (resource 1) over a leaf on the supplied resource 0 and a leaf on resource 3, and a
+   milestone on resource 2; only resource 0 is supplied.  The run registers 3 (leaf), then 1 (summary), then 2
+   (milestone) after the supplied 0; the rows of resource 3 are booked against the default calendar. *)
+Definition ex_rtask (p : option nat) (ch : list nat) (ms : bool) (r : nat) (e : option Z) : itask :=
+  {| k_parent := p; k_children := ch; k_preds := []; k_succs := []; k_ext := false; k_milestone := ms;
+     k_res := r; k_est := e; k_spent := None; k_start := None; k_end := None; k_minstart := None |}.
+Definition ex_rw : list itask :=
+  [ex_rtask None [1; 2]%nat false 1 None; ex_rtask (Some 0%nat) [] false 0 (Some 80);
+   ex_rtask (Some 0%nat) [] false 3 (Some 144); ex_rtask None [] true 2 None].
+Example C03_report_example :
+  cap_nonneg ex_cfg /\ WFin ex_rw /\
+  match forward (with_defaults ex_cfg [0%nat] 8) ex_rw with
+  | Ok st => run_table [0%nat] ex_rw st = [0; 3; 1; 2]%nat
+             /\ resource_table [0%nat] ex_rw = [0; 1; 3; 2]%nat
+             /\ model_rows st = [(0%nat, 19723, 1%nat, 64); (0%nat, 19724, 1%nat, 16);
+                                (3%nat, 19723, 2%nat, 64); (3%nat, 19724, 2%nat, 64); (3%nat, 19725, 2%nat, 16)]
+             /\ report_reserved (model_rows st) 3 19724 = 64
+             /\ task_rows (model_rows st) 1 = [(0%nat, 19723, 1%nat, 64); (0%nat, 19724, 1%nat, 16)]
+  | _ => False
+  end.
+Proof.
+  split; [|split].
+  - intros r d. cbn [cap ex_cfg]. unfold ex_cap. destruct (weekday_of_day d <? 5); lia.
+  - vm_compute. reflexivity.
+  - vm_compute. repeat split; reflexivity.
+Qed.
+
 Print Assumptions C03_forward.
 Print Assumptions C03_backward.
 Print Assumptions C03_oracle_meaning.
@@ -71,3 +186,17 @@ Print Assumptions C03_backward_passes_oracle.
 Print Assumptions C03_report_meaning.
 Print Assumptions C03_fill_keeps_invariant.
 Print Assumptions C03_example.
+Print Assumptions C03_report_totals.
+Print Assumptions C03_report_filter.
+Print Assumptions C03_report_task_rows.
+Print Assumptions C03_resources_present.
+Print Assumptions C03_run_table_forward.
+Print Assumptions C03_run_table_backward.
+Print Assumptions C03_default_resource.
+Print Assumptions C03_default_consts.
+Print Assumptions C03_forward_report.
+Print Assumptions C03_backward_report.
+Print Assumptions C03_report_checker_meaning.
+Print Assumptions C03_report_checker_complete.
+Print Assumptions C03_default_tabulation.
+Print Assumptions C03_report_example.
